@@ -271,6 +271,19 @@ def _run_sart(case):
             for relax in relaxes:
                 Xs, C, clips = ref.trajectory(W, Bm, X0, relax, K, L, beta)
                 Xarr = np.array(Xs)                                           # (K+1, n, nb)
+                # Rounding errors of the two implementations (C loop / numpy) are propagated by the iteration map
+                # x -> clip(M x + c), M = I - omega D^-1 F^T W - beta L, which is ||M||_inf-Lipschitz: after k iterations a rounding-level
+                # difference may have grown by ||M||^(k-1).  For the documented parameter range ||M|| is ~1; with a strong Laplacian
+                # penalty (beta_laplace 1.5) it reaches ~7 and the long iterates are compared correspondingly loosely (counted).
+                _rl, _dn = W.sum(axis=1), W.sum(axis=0)
+                _F = np.divide(W, _rl[:, None], out=np.zeros_like(W, dtype=float), where=(_rl[:, None] != 0))
+                _M = np.eye(n) - relax * np.divide(_F.T @ W, _dn[:, None], out=np.zeros((n, n)), where=(_dn[:, None] > 0))
+                if site == "csart" and L is not None:
+                    _M = _M - beta * np.asarray(L, dtype=float)
+                gM = max(1.0, float(np.abs(_M).sum(axis=1).max()))
+                AMP = np.minimum(gM ** np.maximum(np.arange(K + 1) - 1, 0), 1e12)          # AMP[k]: after k iterations
+                if gM > 1.5:
+                    _bump(cl, "sart:expansive-iteration-map:tolerance-amplified")
                 scale = 1.0 + np.maximum(np.abs(Xarr).max(axis=(0, 1)), np.abs(Bm).max(axis=0))     # (nb,)
                 moved_any |= (Xarr[1] != Xarr[0]).any(axis=0)
                 if site == "csart" and beta > 0 and lkind == "path":
@@ -311,7 +324,7 @@ def _run_sart(case):
                     Cs = np.abs(C[1:]) + np.abs(C[:-1])
                 for tol in set(t for _, t in stops):
                     if K >= 2:
-                        band = 1e-9 * tol + 4e-14 * (1.0 + Cs)
+                        band = 1e-9 * tol + 4e-14 * (1.0 + Cs) * AMP[2:K + 1, None]
                         amb = np.abs(Dc - tol) <= band
                         stop = (Dc < tol) & ~amb
                         first = np.where(stop.any(axis=0), stop.argmax(axis=0) + 2, K + 1)   # iteration count at the first stop
@@ -330,7 +343,7 @@ def _run_sart(case):
                     a = amb_cols.get(t)
                     if a is not None and mi >= 2 and a[:mi - 1].any():
                         for bi in np.nonzero(a[:mi - 1].any(axis=0))[0]:
-                            allowed, _ = ref.allowed_lengths(C[:, bi], mi, t)
+                            allowed, _ = ref.allowed_lengths(C[:, bi], mi, t, band_abs=4e-14 * float(AMP[min(mi, K)]))
                             _bump(cl, "sart:stop-ambiguous")
                             if valid[bi, si]:
                                 bad_nit[bi, si] = int(NIT[bi, si]) not in allowed
@@ -338,10 +351,10 @@ def _run_sart(case):
                 XE = Xarr[NITc, :, np.arange(nb)[:, None]]                           # (nb, ns, n) expected iterate
                 nonfinite = valid & ~np.isfinite(R).all(axis=2)
                 negative = valid & (R < 0).any(axis=2)
-                bad_x = valid & ~bad_nit & ~(np.abs(R - XE).max(axis=2) <= 1e-12 * scale[:, None])
+                bad_x = valid & ~bad_nit & ~(np.abs(R - XE).max(axis=2) <= 1e-12 * scale[:, None] * AMP[NITc])
                 CE = C.T[:, None, :]                                                  # (nb, 1, K) unstopped reference values
                 inlist = np.arange(K)[None, None, :] < NITc[:, :, None]
-                bad_c = (inlist & ~(np.abs(CI - CE) <= 1e-11 * (1.0 + np.abs(CE)))).any(axis=2)
+                bad_c = (inlist & ~(np.abs(CI - CE) <= 1e-11 * (1.0 + np.abs(CE)) * AMP[None, None, 1:K + 1])).any(axis=2)
                 bad_c &= valid & ~bad_nit & ~bzero_arr[:, None]
                 early = valid & (NIT < MI[None, :])
                 _bump(cl, "sart:stopped-early", int(early.sum()))
